@@ -207,7 +207,14 @@ Fixpoint bulk_plain_elems (pf cont : bool) (s : mst) (err : bool) (ws : list wri
          (s2, tr ++ tr2, err2)
   end.
 
-(* Bulker.Run: atomic => ctrl.BeginTX on the facade (inherited => root events object) ; run ; hasError ? Rollback : Commit.
+(* Bulker.Run: atomic => ctrl.BeginTX on the facade ; run ; hasError ? Rollback : Commit, all on the controller BeginTX
+   returned: the events object {parent: root, hasTx: true} made by ControllerWithEvents.BeginTX on the root.
+   Since the repair of the facade (controllerFacade.BeginTX is no longer inherited) the transaction of an atomic bulk
+   on an initializing ledger starts with the prelude of handleState (pg_advisory_xact_lock, UPDATE _system.ledgers,
+   setval x2) executed through that same object; when a statement of the prelude fails (or the context is cancelled
+   there) BeginTX rolls back and Run returns before any element: that run is the one where the FIRST element's outcome
+   is WFailEarly (resp. WCancel false) -- the element fails ahead of its own sub-transaction, the bulk rolls back and,
+   not continuing on failure or cancelled, processes nothing else.  The frame stack is the same in both states.
    processElement always passes DryRun: false. *)
 Definition bulk (pf atomic cont : bool) (s : mst) (ws : list write) : mst * list act :=
   if atomic then
